@@ -43,7 +43,7 @@ fn configured_import(world: &World) -> Vec<deno_graph::ReferrerImports> {
   }]
 }
 
-fn scratch(world: &World, roots: &[ModuleSpecifier], ch: &Ch, kind: GraphKind, with_import: bool) -> Option<ModuleGraph> {
+fn scratch(world: &World, roots: &[ModuleSpecifier], ch: &Ch, kind: GraphKind, with_import: bool, is_dynamic: bool) -> Option<ModuleGraph> {
   let sched = Sched::new(SchedMode::Immediate);
   let loader = ScriptedLoader::new(sched);
   world.install(&loader);
@@ -56,6 +56,7 @@ fn scratch(world: &World, roots: &[ModuleSpecifier], ch: &Ch, kind: GraphKind, w
       unstable_bytes: true,
       unstable_text: true,
       imports: if with_import { configured_import(world) } else { vec![] },
+      is_dynamic,
       ..Default::default()
     },
     ch,
@@ -177,6 +178,8 @@ fn body_with(generate: impl Fn(&Ch) -> World + Sync + Send, depth: usize) -> imp
     // history
     let mut variants = vec![false; n_specs];
     let kind = [GraphKind::All, GraphKind::CodeOnly, GraphKind::TypesOnly][ch.choose("graph_kind", 3)];
+    // every build and reload of the history treats its roots as dynamically imported
+    let is_dynamic = ch.choose("roots_are_dynamic_imports", 2) == 1;
     let mut graph = ModuleGraph::new(kind);
     let mut roots_so_far: Vec<ModuleSpecifier> = vec![];
     let mut edited = false;
@@ -218,6 +221,7 @@ fn body_with(generate: impl Fn(&Ch) -> World + Sync + Send, depth: usize) -> imp
       let cfg = || BuildCfg {
         unstable_bytes: true,
         unstable_text: true,
+        is_dynamic,
         ..Default::default()
       };
       let mut reloaded: Option<usize> = None;
@@ -299,7 +303,7 @@ fn body_with(generate: impl Fn(&Ch) -> World + Sync + Send, depth: usize) -> imp
       }
       // compare with a from-scratch build of all roots on the current sources
       let cur = effective(&world, &alt, &variants);
-      let Some(fresh) = scratch(&cur, &roots_so_far, ch, kind, import_given) else {
+      let Some(fresh) = scratch(&cur, &roots_so_far, ch, kind, import_given, is_dynamic) else {
         break;
       };
       let mut a = obs(&graph);
@@ -309,7 +313,7 @@ fn body_with(generate: impl Fn(&Ch) -> World + Sync + Send, depth: usize) -> imp
       run.evals += 1;
       outcome.push(hash_json(&f["slots"]));
       let case = |extra: Value| {
-        json!({"world": world.describe(), "graph_kind": format!("{kind:?}"), "alt_imports": alt.iter().enumerate().filter_map(|(i, a)| a.as_ref().map(|e| {
+        json!({"world": world.describe(), "graph_kind": format!("{kind:?}"), "roots_are_dynamic_imports": is_dynamic, "alt_imports": alt.iter().enumerate().filter_map(|(i, a)| a.as_ref().map(|e| {
             let mut w = world.clone(); w.edges = e.clone(); json!({"module": world.spec(i), "source": w.render(i).0})})).collect::<Vec<_>>(),
           "history": history, "detail": extra})
       };
@@ -408,7 +412,7 @@ fn body_with(generate: impl Fn(&Ch) -> World + Sync + Send, depth: usize) -> imp
       }
       let _ = step;
     }
-    run.state_key = hash_of(&(world.key(), format!("{alt:?}{kind:?}"), history.clone()));
+    run.state_key = hash_of(&(world.key(), format!("{alt:?}{kind:?}{is_dynamic}"), history.clone()));
     run.nontrivial = history.len() >= 2;
     run.outcome_key = hash_of(&outcome);
     if ch.describe() {
